@@ -175,6 +175,15 @@ class BaseParagraph(debcon.FieldMixin):
         """
         return fields_dict(self.__class__)
 
+    @classmethod
+    def get_known_names(cls):
+        """
+        Return a set of the names of the Debian fields defined on this paragraph
+        class. "extra_data" and "line_numbers_by_field" are internal attributes
+        and not field names: a field named "Extra-Data" is an unknown field.
+        """
+        return set(fields_dict(cls)) - set(['extra_data', 'line_numbers_by_field'])
+
     def get_field_line_numbers(self, field_name):
         """
         Return a tuple of (start_line, end_line) for the ``field_name`` field.
@@ -207,7 +216,7 @@ class BaseParagraph(debcon.FieldMixin):
             # if everything is "extra_data" this means there are no known names.
             known_names = set()
         else:
-            known_names = set(fields_dict(cls))
+            known_names = cls.get_known_names()
 
         para_data = {}
         para_data['extra_data'] = extra_data = {}
@@ -257,7 +266,7 @@ class BaseParagraph(debcon.FieldMixin):
     @classmethod
     def from_dict(cls, data):
         assert isinstance(data, dict)
-        known_names = set(fields_dict(cls))
+        known_names = cls.get_known_names()
         known_data = {}
         known_data['extra_data'] = extra_data = {}
         for key, value in data.items():
